@@ -275,6 +275,86 @@ macro_rules! ef_cursor_exhausted {
 }
 ef_cursor_exhausted!(c03_cursor_exhausted_n4_last1000, 4, 1000, 6);
 
+/// Long concrete skeleton (300 elements: two select samples, 13 high-bit words)
+/// with symbolic start index and symbolic operation argument: reaches the
+/// sample-based paths of `select1`/`seek`, the `advance_by(k > 64)` seek branch
+/// and word-skipping scans, which sequences of <= 8 elements cannot.
+fn skeleton300() -> [u32; 300] {
+    let mut v = [0u32; 300];
+    let mut i = 0;
+    while i < 300 {
+        // irregular gaps: runs of duplicates, small steps and a few large jumps
+        v[i] = (i as u32) * 3 + 100 + if i % 7 == 0 { 40 } else { 0 } + if i > 200 { 900 } else { 0 };
+        if i > 0 && v[i] < v[i - 1] {
+            v[i] = v[i - 1];
+        }
+        i += 1;
+    }
+    v
+}
+macro_rules! ef_cursor_skeleton {
+    ($name:ident, $op:expr, $maxk:expr) => {
+        #[kani::proof]
+        #[kani::unwind(9)]
+        #[kani::stub(succinctly::util::broadword::select_in_word, select_in_word_contract)]
+        #[kani::stub(std_detect::detect::__is_feature_detected::avx2, yes)]
+        #[kani::stub(core::arch::x86_64::_mm256_shuffle_epi8, models::mm256_shuffle_epi8)]
+        #[kani::stub(core::arch::x86_64::_mm256_sad_epu8, models::mm256_sad_epu8)]
+        fn $name() {
+            let v = skeleton300();
+            let ef = EliasFano::build(&v);
+            let j: usize = kani::any();
+            kani::assume(j <= 301);
+            let mut c = ef.cursor_from(j);
+            let idx0 = if j >= 300 { 300 } else { j };
+            assert!(c.index() == idx0);
+            let arg: usize = kani::any();
+            kani::assume(arg <= $maxk);
+            let got = apply_op!(c, $op, arg);
+            let (want, idx1) = model_step::<300>(&v, idx0, $op, arg);
+            assert!(got == want);
+            assert!(c.index() == idx1);
+            if idx1 < 300 {
+                assert!(c.current() == Some(v[idx1]));
+                assert!(c.verif_state() == ef.cursor_from(idx1).verif_state());
+            }
+            kani::cover!(idx1 == 256 && idx0 != 256);
+            kani::cover!($op != 2 || (arg > 64 && idx1 < 300));
+            core::mem::forget(ef);
+        }
+    };
+}
+ef_cursor_skeleton!(c03_cursor_skeleton300_seek, 3, 301);
+ef_cursor_skeleton!(c03_cursor_skeleton300_adv1, 1, 0);
+ef_cursor_skeleton!(c03_cursor_skeleton300_advby, 2, 70);
+
+/// get / predecessor on the same skeleton: every index, every query value.
+#[kani::proof]
+#[kani::unwind(9)]
+#[kani::stub(succinctly::util::broadword::select_in_word, select_in_word_contract)]
+#[kani::stub(std_detect::detect::__is_feature_detected::avx2, yes)]
+#[kani::stub(core::arch::x86_64::_mm256_shuffle_epi8, models::mm256_shuffle_epi8)]
+#[kani::stub(core::arch::x86_64::_mm256_sad_epu8, models::mm256_sad_epu8)]
+fn c03_get_pred_skeleton300() {
+    let v = skeleton300();
+    let ef = EliasFano::build(&v);
+    assert!(ef.len() == 300 && ef.universe() == v[299] as u64 + 1);
+    let i: usize = kani::any();
+    let g = ef.get(i);
+    assert!(g == if i < 300 { Some(v[i]) } else { None });
+    let q: u32 = kani::any();
+    match ef.predecessor(q) {
+        Some((j, x)) => {
+            assert!(j < 300 && v[j] == x && x <= q);
+            assert!(j == 299 || v[j + 1] > q);
+        }
+        None => assert!(v[0] > q),
+    }
+    kani::cover!(i == 256);
+    kani::cover!(i == 299);
+    core::mem::forget(ef);
+}
+
 /// `cursor()` is `cursor_from(0)`; the empty sequence answers None everywhere.
 #[kani::proof]
 #[kani::unwind(9)]
